@@ -300,7 +300,7 @@ def main(tier, replay=None):
                 if line.strip():
                     cases.append(("corpus", json.loads(line)))
         genfile = os.path.join(d, "gen.jsonl")
-        ngen = 2000 if thorough else 220
+        ngen = 1500 if thorough else 220
         rc, out = run([hbin, "gen", str(sd), str(ngen), "10" if thorough else "9", genfile], timeout=600)
         if rc != 0:
             res.violation("harness c04 gen crashed", {"kind": "harness", "log": out[-2000:]}, no_failing_input=True)
@@ -469,14 +469,21 @@ def main(tier, replay=None):
     res.coverage["pools"] = pools
     res.coverage["orders_per_pool"] = orders
     res.coverage["rule"] = (
-        "corpus (F4 project, swallowed-cycle project, hand-made cycles) first; then random request graphs of 2-10 design "
-        "units (packages, entities, architectures) over 1-3 libraries: acyclic, single cycles, nested cycles, cycles with "
-        "tails and chords, self-use, `use lib.all` of a library with a cycle, use clauses that discard a circular error "
-        "(`use l.p.k(0);`), dense graphs; rendered with use clauses, selected names in declarations and entity "
-        "instantiations. Every project is loaded with Project::from_config (parallel parsing) and analysed under rayon "
-        "pools of %s workers x %d library/file listing orders (different directory per order), each run in a watchdog-"
-        "supervised child process. non-trivial = the request graph has a cycle or >= 4 units; distinct by hash of the files"
-        % (pools, orders))
+        "corpus first (F4 project, F26 and F34 regression projects = circular error formerly discarded by an invalid use "
+        "clause / by a signature, 2- and 3-cycles with tail, architectures instantiating each other in both directions "
+        "with a third user); then random request graphs of 2-12 design units (packages, entities, architectures) over 1-3 "
+        "libraries: acyclic, single cycles, nested cycles, cycles with tails and chords, self-use, `use lib.all` of a "
+        "library with a cycle, architecture cycles through `entity l.e(a)` instantiations, dense graphs; requests rendered "
+        "as `use l.p;`, `use l.p.all;`, `use l.p.k(0);` (not a selected name), selected names in constant declarations, "
+        "`alias g is true [nonexistent_t, l.p.k return boolean];` (type mark after an unresolved one), entity "
+        "instantiations with and without architecture; plus projects of 17-40 files that all use the same not yet "
+        "interned extended and mixed-case identifiers (symbol table race while parsing in parallel). Every project is "
+        "loaded with Project::from_config (parallel parsing) and analysed under rayon pools of %s workers x %d library/"
+        "file listing orders (different directory per order), each in a watchdog-supervised child process (no output "
+        "for %d s and an idle CPU clock = deadlock). Direct stress of SymbolTable (barrier-synchronised threads "
+        "interning the same fresh names) and sequential differential SymbolTable vs Symtab.classes. non-trivial = the "
+        "request graph has a cycle or >= 4 units; distinct by hash of the files"
+        % (pools, orders, int(SILENCE_S)))
     res.coverage["explanation"] = (
         "theorem half: deadlock freedom, termination measure, exactly-once and confluence (result of every unit is a "
         "function of the static request graph) are proved for the model for all graphs, thread counts and interleavings; "
@@ -489,6 +496,8 @@ def main(tier, replay=None):
         "another acquisition (inspected: analyze.rs use_all_in_library, get_architecture, lookup_in_library)",
         "OCaml search driver of c04_run.ml (breadth-first enumeration over the extracted successor function)",
         "schedules of the implementation are sampled (thread counts, listing orders, directory names), not enumerated",
+        "relaxed atomics (ArenaId counter, Reference cells) are outside the model: uniqueness of fetch_add results is assumed; "
+        "their effect is covered only through the cross-run comparison of the reference map",
     ]
     res.coverage["partial"] = False
     res.assumptions = [
